@@ -1474,6 +1474,27 @@ M("SEED-C18-f", ["C18"], [("@patch", "seeded/C18-f/patch.diff", "")], ["C18/stat
 M("SEED-C19-f", ["C19"], [("@patch", "seeded/C19-f/patch.diff", "")], ["C19/value/SubscriptionIdentifier"])
 M("SEED-C20-f", ["C20"], [("@patch", "seeded/C20-f/patch.diff", "")], ["C20/target/correlation"])
 
+# seeds of round 7 (two places that disagree about a contract: who performs a step, what a returned bool / count means, which unit a value is in)
+M("SEED-C01-g", ["C01"], [("@patch", "seeded/C01-g/patch.diff", "")], ["C01/qos/header-downgraded"])
+M("SEED-C02-g", ["C02"], [("@patch", "seeded/C02-g/patch.diff", "")], ["C02/fresh/before-any-failure"])
+M("SEED-C03-g", ["C03"], [("@patch", "seeded/C03-g/patch.diff", "")], ["C03/order/pending_release/queue_release/insert"])
+M("SEED-C04-g", ["C04"], [("@patch", "seeded/C04-g/patch.diff", "")], ["C04/store/flush-after-complete-write"])
+M("SEED-C05-g", ["C05"], [("@patch", "seeded/C05-g/patch.diff", "")], ["C05/order/retained/ack_packet/swap_remove"])
+M("SEED-C06-g", ["C06"], [("@patch", "seeded/C06-g/patch.diff", "")], ["C06/dec/after-enqueue"])
+M("SEED-C07-g", ["C07"], [("@patch", "seeded/C07-g/patch.diff", "")], ["C07/qos/header-downgraded"])
+M("SEED-C08-g", ["C08"], [("@patch", "seeded/C08-g/patch.diff", "")], ["C08/props-iter/advance-matches-start"])
+M("SEED-C09-g", ["C09"], [("@patch", "seeded/C09-g/patch.diff", "")], ["C09/props/size/ContentType"])
+M("SEED-C10-g", ["C10"], [("@patch", "seeded/C10-g/patch.diff", "")], ["C10/refresh/publish"])
+M("SEED-C11-g", ["C11"], [("@patch", "seeded/C11-g/patch.diff", "")], ["C11/fatal/read_packet/fill_packet_reader#1"])
+M("SEED-C12-g", ["C12"], [("@patch", "seeded/C12-g/patch.diff", "")], ["C12/used/writer/retain_packet"])
+M("SEED-C13-g", ["C13"], [("@patch", "seeded/C13-g/patch.diff", "")], ["C13/drain/publish/write_all#1"])
+M("SEED-C14-g", ["C14"], [("@patch", "seeded/C14-g/patch.diff", "")], ["C14/tx/precheck/handle_packet#2"])
+M("SEED-C15-g", ["C15"], [("@patch", "seeded/C15-g/patch.diff", "")], ["C15/write/loop-until-drained"])
+M("SEED-C17-g", ["C17"], [("@patch", "seeded/C17-g/patch.diff", "")], ["C17/used/free-space/scratch_len"])
+M("SEED-C18-g", ["C18"], [("@patch", "seeded/C18-g/patch.diff", "")], ["C18/ack/release-removes-the-acknowledged-entry"])
+M("SEED-C19-g", ["C19"], [("@patch", "seeded/C19-g/patch.diff", "")], ["C19/dead/entry/subscribe"])
+M("SEED-C20-g", ["C20"], [("@patch", "seeded/C20-g/patch.diff", "")], ["C20/block/size-is-a-sum/WithCorrelation"])
+
 # third round: property-centred behaviour-preserving refactorings (five per property, around that property's anchors)
 for _p in sorted(_glob.glob(_os.path.join(_os.path.dirname(_os.path.abspath(__file__)), "refactors", "rf3", "*.diff"))):
     RF("RF3-" + _os.path.basename(_p)[:-5], ALL19, [("@patch", "selftest/refactors/rf3/" + _os.path.basename(_p), "")])
@@ -1544,7 +1565,7 @@ KNOWN_LIMITS = {
                                                 "have no entry in the panic-site discharge table", ["C08/panic/"]),
     "RF5-C03-05-pubrel-size-and-encode-as-methods": ("reference functions become methods with *different* parameter sets (serialize_pubrel over a step record, "
                                                      "check_pubrel_size on the entry type, queue_release taking a ready-made record): positional argument rules lose the sites",
-                                                     ["C03/rel/id", "C03/wire/", "C04/offarena/", "C14/tx/"]),
+                                                     ["C03/rel/id", "C06/rel/id", "C03/wire/", "C04/offarena/", "C14/tx/"]),
     "RF5-C10-05-pingreq-decision-on-session-data": ("both keep-alive decision functions deleted, the enqueue folded into the two step loops: the `due` truth table is taken "
                                                     "of a loop-free function", ["C10/ANCHOR-LOST/due/"]),
     "RF5-C20-05-iter-next-per-variant": ("`PropertiesIter::next` split into per-variant helpers over `&mut index`: the dominating guard of the index arithmetic is spelled "
